@@ -148,7 +148,7 @@ PROPS = {
         theorems={ITEMS: ["C12_window_bound", "C12_window_total", "C12_window_unset_only", "C12_window_in_order", "C12_no_concurrency_all_unset", "C12_empty_items_offer", "C12_empty_window", "C12_item_success_unique", "C12_completed_needs_dormant"], NEXT: ["C09_no_offer_while_pausing_or_paused", "C10_no_offer_after_cancel"],
                   ANCESTRY: ["C12_completed_entry_not_offered"]},
         keys=["status", "staged", "sequence"], offers="full",
-        prof=dict(p_items=0.9, max_tasks=3, p_retry=0.1), hist=dict(p_fail=0.3, p_pause=0.1, p_cancel=0.05, p_rerun=0.5, p_item_pause=0.08),
+        prof=dict(p_items=0.9, max_tasks=3, p_retry=0.1, p_template=0.12, templates=[16]), hist=dict(p_fail=0.3, p_pause=0.1, p_cancel=0.05, p_rerun=0.5, p_item_pause=0.08),
         monitor="C12", unproven=["C12_all_offered (progress) not proved; result ordering is assembled by the provider"],
     ),
     "C13": dict(
